@@ -115,8 +115,11 @@ class SetDistributedPower:
     modifies = ["conn"]
     inline = [f"{BM}._cancel_tasks"]
     use = {}
+    ghost_init = ["wait_timeouts = []"]     # the timeouts handed to asyncio.wait, in order (recorded by the wait model)
     requires = dict(fresh="conn.api_client.n_calls == 0 and conn.api_client.sum_set == 0")
     ensures = dict(
+        # "no reply before the timeout" is judged against the CONFIGURED timeout, fractions of a second included
+        waits_for_the_configured_timeout="len(wait_timeouts) == 1 and wait_timeouts[0] == timeout.total_seconds()",
         one_call_per_setpoint="conn.api_client.n_calls == len(distribution.distribution)",
         commanded_power_is_the_distribution="conn.api_client.sum_set == setpoint(distribution.distribution, 11)"
                                             " + setpoint(distribution.distribution, 12)",
@@ -148,7 +151,9 @@ class PvSetApiPower:
         # what distribute_power hands over (its own contract): the allocations and the remainder make up the request
         allocations_account_for_request="pv_alloc(allocations, 21) + pv_alloc(allocations, 22) + remaining_power == request.power",
     )
+    ghost_init = ["wait_timeouts = []"]     # the timeouts handed to asyncio.wait, in order (recorded by the wait model)
     ensures = dict(
+        waits_for_the_configured_timeout="all(t == self._api_power_request_timeout.total_seconds() for t in wait_timeouts)",
         exactly_one_result="self._results_sender.n_sent == 1",
         one_call_per_allocation="conn.api_client.n_calls == len(allocations)",
         powers_add_up="sent(self).succeeded_power + failed_power_of(sent(self)) + sent(self).excess_power == request.power",
